@@ -11,6 +11,7 @@ import (
 	"sort"
 	"strings"
 	"time"
+	"unicode/utf8"
 
 	"github.com/tsenart/vegeta/v12/internal/simrt"
 	vegeta "github.com/tsenart/vegeta/v12/lib"
@@ -21,6 +22,9 @@ type GenOpts struct {
 	MaxBody int  // maximum body size
 	NoCR    bool // never generate carriage returns in text fields
 	Small   bool // small numbers only (metrics workloads)
+	// header values with blanks at their ends and with bytes that are not UTF-8: net/http yields both (HTTP/2
+	// does not trim field values; a Latin-1 value passes through), CSV and JSON cannot carry them (known findings)
+	OddHeaders bool
 }
 
 var textFrags = []string{"", "a", "GET", "POST", "http://goku:9090/path?x=1&y=2", `"`, ",", "\n", " ", "  lead", "trail  ", "é", "日本語", "\t", `\`, "'", ";", "{}", "[1,2]", "null", "%41", "x y", "\x00", "\r", "\r\n", "💥",
@@ -98,9 +102,13 @@ func genTime(t *simrt.Tape) time.Time {
 }
 
 var hdrKeys = []string{"Content-Type", "X-Foo-Bar", "Set-Cookie", "Content-Length", "Etag", "X-A", "Date"}
-var hdrVals = []string{"", "text/plain", "a=b; Path=/", "0", `W/"x"`, "é", "a, b", "x  y", "1234567890"}
+var hdrVals = []string{"", "text/plain", "a=b; Path=/", "0", `W/"x"`, "é", "a, b", "x  y", "1234567890",
+	// colons, also followed by a blank, inside the value (the CSV column is a MIME header block: "Key: value" lines)
+	"default-src 'self' https: data:", `199 - "note: cache is stale"`, "a: b: c", "http://h/p?q=1"}
 
-func genHeader(t *simrt.Tape) http.Header {
+var oddHdrVals = []string{"  padded value  ", "v\t", " lead", "trail ", "caf\xe9", "\xff\xfe", "na\xefve  "}
+
+func genHeader(t *simrt.Tape, o GenOpts) http.Header {
 	switch t.Choose(4) {
 	case 0:
 		return nil
@@ -113,6 +121,10 @@ func genHeader(t *simrt.Tape) http.Header {
 		k := hdrKeys[t.Choose(len(hdrKeys))]
 		m := 1 + t.Biased(3, 2, 3)
 		for j := 0; j < m; j++ {
+			if o.OddHeaders && t.Prob(1, 3) {
+				h[k] = append(h[k], oddHdrVals[t.Choose(len(oddHdrVals))])
+				continue
+			}
 			h[k] = append(h[k], hdrVals[t.Choose(len(hdrVals))])
 		}
 	}
@@ -172,7 +184,7 @@ func GenResult(t *simrt.Tape, o GenOpts) (r vegeta.Result, err error) {
 		case sf.Type == typDur:
 			f.SetInt(genI64(t))
 		case sf.Type == typHeader, sf.Type.Kind() == reflect.Map && sf.Type.Key().Kind() == reflect.String && sf.Type.Elem() == reflect.TypeOf([]string(nil)):
-			h := genHeader(t)
+			h := genHeader(t, o)
 			if h == nil {
 				f.Set(reflect.Zero(sf.Type))
 			} else {
@@ -293,4 +305,39 @@ func NormalizeCRLF(r vegeta.Result) vegeta.Result {
 		}
 	}
 	return r
+}
+
+// MapHeaderValues returns a copy of r whose header values went through f.
+func MapHeaderValues(r vegeta.Result, f func(string) string) vegeta.Result {
+	if r.Headers == nil {
+		return r
+	}
+	h := make(http.Header, len(r.Headers))
+	for k, vs := range r.Headers {
+		c := make([]string, len(vs))
+		for i, v := range vs {
+			c[i] = f(v)
+		}
+		h[k] = c
+	}
+	r.Headers = h
+	return r
+}
+
+// TrimBlanks is what a MIME header block does to a field value: blanks and tabs at both ends go.
+func TrimBlanks(v string) string { return strings.Trim(v, " \t") }
+
+// ValidUTF8 is what a JSON string does to bytes that are not UTF-8.
+func ValidUTF8(v string) string {
+	var b strings.Builder
+	for i := 0; i < len(v); {
+		r, n := utf8.DecodeRuneInString(v[i:])
+		if r == utf8.RuneError && n == 1 {
+			b.WriteString("\uFFFD") // one replacement character per offending byte
+		} else {
+			b.WriteString(v[i : i+n])
+		}
+		i += n
+	}
+	return b.String()
 }
